@@ -94,6 +94,7 @@ type funcContract struct {
 	ats        []*atClause
 	fresh      bool // extern result is freshly allocated
 	nofail     bool
+	dispatch   map[string]string // interface type name -> concrete receiver type text (devirtualisation, justified by a requires clause)
 }
 
 type specFunc struct {
@@ -238,6 +239,15 @@ func (db *specDB) loadSpecFile(path string, pkgName string, isGo bool) error {
 			cur.pure = true
 		case "fresh":
 			cur.fresh = true
+		case "dispatch":
+			f := strings.Fields(rest)
+			if len(f) != 2 {
+				return fmt.Errorf("%s: dispatch <Interface> <ConcreteType>", where)
+			}
+			if cur.dispatch == nil {
+				cur.dispatch = map[string]string{}
+			}
+			cur.dispatch[f[0]] = f[1]
 		case "implements":
 			cur.implements = strings.TrimSpace(rest)
 			if !strings.Contains(cur.implements[strings.Index(cur.implements, ")")+1:], ".") {
